@@ -15,6 +15,10 @@ REPO = "/repo"
 ALLI = ["C01", "C02", "C03", "C04", "C05", "C06", "C07", "C08", "C20"]
 
 def checks_for(path):
+    r = _checks_for(path)
+    return r if "C15" in r else r + ["C15"]
+
+def _checks_for(path):
     p = path
     if "instruction/" in p or "addressing_mode" in p:
         extra = []
